@@ -17,6 +17,7 @@ partial def dispatch (j : Json) : R Json := do
   | "parse" => handleParse j
   | "tower" => handleTower j
   | "page" => handlePage j
+  | "cs" => handleCs j
   | k => throw s!"unknown kind {k}"
 
 partial def loop (h : IO.FS.Stream) (out : IO.FS.Stream) : IO Unit := do
